@@ -47,7 +47,9 @@ def write():
            "Breaking changes (`seeded/<id>-m<k>`): written by sub-agents that saw only the property text and a scratch worktree,",
            "confirmed by `tools/mutconfirm.sh`, run by `tools/mutrun2.sh` (snapshot of /verif, scratch worktree of /repo with the patch).",
            "`caught` = the property's own quick check exits 1 with a VIOLATION line in the FINAL regression run of all changes against the",
-           "machinery as committed; `history` = what happened when the change was first run.", ""]
+           "machinery as committed; `history` = what happened when the change was first run.",
+           "The final regression of all 228 changes ran on 2026-10-02 from 06:53 UTC (two snapshots of /verif side by side); the checks of",
+           "C10, C12, C16 and C18 were corrected afterwards (see DESIGN.md 13.7, round 6) and all 48 changes of those four properties were run again.", ""]
     for rnd in sorted(rows):
         if not rows[rnd]:
             continue
